@@ -21,9 +21,25 @@
 #include <rapidcheck/detail/Configuration.h>
 using namespace vh;
 typedef std::vector<uint32_t> CPS;
-// rapidcheck's deep call stacks make ASan's stack depot (one entry per distinct 30-frame allocation stack) grow by ~70 kB per case;
-// 8 frames still show the library frames of every report.  Options named in ASAN_OPTIONS by the driver take precedence.
-extern "C" const char *__asan_default_options() { return "malloc_context_size=8:quarantine_size_mb=32"; }
+// Memory bound.  ASan records the allocation stack of every malloc in its stack depot.  Below this engine's own frames lie
+// librapidcheck / ICU frames compiled without frame pointers, so deep contexts pick up ever-new garbage frames and the depot
+// grows without bound: measured on sub-check (1), per 8000 cases: +4 MB at malloc_context_size=6, +10 MB at 8, +45 MB at 10,
+// ~+550 MB at the default 30.  Six frames still show every library frame of a report (cif_map_set_item <- cif_packet_set_item
+// <- run_lookup ...).  Defaults first; if the driver's ASAN_OPTIONS asks for a deeper context the engine re-executes itself
+// once with the value capped (a thorough worker then peaks near 250 MB instead of 0.8 .. 4 GB).
+#include <unistd.h>
+extern "C" const char *__asan_default_options() { return "malloc_context_size=6:quarantine_size_mb=32"; }
+static void cap_asan_context(char **argv) {
+    const char *o = getenv("ASAN_OPTIONS");
+    if (!o || getenv("C09_ASAN_CAPPED")) return;
+    std::string s = o; const std::string key = "malloc_context_size=";
+    size_t p = s.find(key);
+    if (p == std::string::npos || atoi(s.c_str() + p + key.size()) <= 6) return;
+    size_t e = s.find(':', p);
+    s.replace(p, (e == std::string::npos ? s.size() : e) - p, key + "6");
+    setenv("ASAN_OPTIONS", s.c_str(), 1); setenv("C09_ASAN_CAPPED", "1", 1);
+    execv("/proc/self/exe", argv);   // on failure just carry on with the deeper context
+}
 
 // ------------------------------------------------------------------------------------------------ small helpers
 static CPS to_cps(const ustr &s) {   // lenient: an unpaired surrogate is delivered as itself
@@ -224,21 +240,16 @@ static std::string loop_names(cif_loop_tp *loop, std::vector<ustr> &out) {
 }
 static bool contains(const std::vector<ustr> &v, const ustr &s) { return std::find(v.begin(), v.end(), s) != v.end(); }
 
-// Known finding F-PKTALIAS: an entry made by cif_packet_create() under a spelling that is already its own normalised form
-// shares one allocation between the hash key and the "original" key; cif_packet_set_item() under a different equivalent
-// spelling frees it (map.c:182) -> use after free / double free.  Unless the case says strict=1, such packets are built by
-// cif_packet_create(NULL) + cif_packet_set_item() instead, whose entries own two separate strings.
+// Found here and (independently) by C19, fixed since as F-PKTKEY-UAF: an entry made by cif_packet_create() under a spelling that
+// is already its own normalised form shared one allocation between the hash key and the "original" key, and
+// cif_packet_set_item() under a different equivalent spelling freed it (use after free / double free).  pktalias() recognises
+// that class (label only); replay/C09/fixed-F-PKTKEY-UAF.case is the regression witness.
 static bool pktalias(const ustr &created, std::initializer_list<const ustr *> setters) {
     if (cm::norm_name(created) != created) return false;
     for (const ustr *s : setters) if (*s != created && cm::norm_name(*s) == created) return true;
     return false;
 }
-static int make_packet(cif_packet_tp **pkt, const std::vector<ustr> &names, bool by_set_item) {
-    if (by_set_item) {
-        int rc = cif_packet_create(pkt, nullptr);
-        for (size_t i = 0; rc == CIF_OK && i < names.size(); i++) rc = cif_packet_set_item(*pkt, U(names[i]), nullptr);
-        return rc;
-    }
+static int make_packet(cif_packet_tp **pkt, const std::vector<ustr> &names) {
     std::vector<UChar *> arr; for (auto &n : names) arr.push_back((UChar *) U(n)); arr.push_back(nullptr);
     return cif_packet_create(pkt, arr.data());
 }
@@ -312,9 +323,8 @@ static std::string run_lookup(const CaseFile &c) {
             CK(cif_container_create_loop(blk, u"cat", names, &loop));
             // the packet names the item by the first probe that is equivalent to A (else by A itself)
             ustr pn = cm::norm_name(pr[0]) == na ? pr[0] : cm::norm_name(pr[1]) == na ? pr[1] : a;
-            bool dodge = pktalias(pn, {&a}) && !c.geti("strict");
-            if (dodge) { count_excluded("F-PKTALIAS"); label("excluded:F-PKTALIAS"); }
-            CK((make_packet(&pkt, {pn}, dodge)));
+            if (pktalias(pn, {&a})) label("lookup:packet-respelled-normalised-name");
+            CK((make_packet(&pkt, {pn})));
             CK(cif_packet_set_item(pkt, U(a), v1));
             { const UChar **kn = nullptr; size_t cnt = 0; CK(cif_packet_get_names(pkt, &kn)); for (const UChar **p = kn; *p; p++) cnt++; cm::ufree(kn);
               if (cnt != 1) { msg = "packet created for " + show(pn) + " holds " + std::to_string(cnt) + " items after set_item under the equivalent " + show(a); goto done; } }
@@ -388,9 +398,8 @@ static std::string run_lookup(const CaseFile &c) {
             }
         }
     } else {   // kind 4: packet items, no database
-        bool dodge = pktalias(a, {&pr[0], &pr[1]}) && !c.geti("strict");
-        if (dodge) { count_excluded("F-PKTALIAS"); label("excluded:F-PKTALIAS"); }
-        CK((make_packet(&pkt, {a, second}, dodge)));
+        if (pktalias(a, {&pr[0], &pr[1]})) label("lookup:packet-respelled-normalised-name");
+        CK((make_packet(&pkt, {a, second})));
         model[na] = a; model[cm::norm_name(second)] = second;
         { const UChar **kn = nullptr; std::vector<ustr> nm; CK(cif_packet_get_names(pkt, &kn)); for (const UChar **p = kn; *p; p++) nm.push_back(ustr((const char16_t *) *p)); cm::ufree(kn);
           if (nm.size() != 2 || nm[0] != a || nm[1] != second) { msg = "cif_packet_get_names after cif_packet_create([" + show(a) + ", " + show(second) + "]) lists " + std::to_string(nm.size()) + " names, first " + (nm.empty() ? "<none>" : show(nm[0])); goto done; } }
@@ -998,6 +1007,7 @@ static bool run_sweeps() {
 }
 
 int main(int argc, char **argv) {
+    cap_asan_context(argv);
     for (int i = 1; i + 1 < argc; i++) {
         if (!strcmp(argv[i], "--workers-quick")) g_workers_quick = atoi(argv[i + 1]);
         if (!strcmp(argv[i], "--workers-thorough")) g_workers_thorough = atoi(argv[i + 1]);
@@ -1021,11 +1031,6 @@ int main(int argc, char **argv) {
     e.classify = [](const CaseFile &c) {
         if (c.get("mode") == "valid") { ustr s = deser_u16(c.get("s")); if (!has_c1(s) && (normlen_class(s) || normlen_class(u"_" + s))) return std::string("F-NORMLEN"); }
         if (c.get("mode") == "lookup" && c.geti("kind") == 2 && normlen_class(deser_u16(c.get("a")))) return std::string("F-NORMLEN");
-        if (c.get("mode") == "lookup" && (c.geti("kind") == 3 || c.geti("kind") == 4)) {
-            ustr a = deser_u16(c.get("a")), b = deser_u16(c.get("b")), n = deser_u16(c.get("n")), na = cm::norm_name(a);
-            ustr pn = cm::norm_name(b) == na ? b : cm::norm_name(n) == na ? n : a;
-            if (c.geti("kind") == 3 ? pktalias(pn, {&a}) : pktalias(a, {&b, &n})) return std::string("F-PKTALIAS");
-        }
         for (const char *k : {"a", "b", "n", "s"}) if (c.kv.count(k) && has_c1(deser_u16(c.get(k)))) return std::string("F-C1CTRL");
         if (c.get("mode") == "sweep" && c.geti("lo") == c.geti("hi") && is_c1((uint32_t) c.geti("lo"))) return std::string("F-C1CTRL");
         return std::string();
